@@ -807,6 +807,8 @@ func mechanisms(c *hx.Ctx, k interface{}, pg Page) {
 		opBlocks(c, k, frs, w, h)
 		opElementTree(c, frs, w, h)
 		opAssemble(c, frs, w)
+		opPreserveX(c, k, frs, w)
+		opGaps(c, k, frs, w, h)
 		opByColumn(c, frs, w, h)
 		opLineOrder(c, frs)
 		opReadingOrder(c, frs, w, h)
